@@ -2,6 +2,8 @@
   Driver.C08 — runs the C08 CodeModel (Golib.Step.*) on request lines.
 
     E1 <layout> <rec>                 →  <hex>                       (write one record of a named single layout)
+    EA <layout> <choices> <rec>       →  <hex>                       (… as an older writer would: choices = name=flag,…  or  -;
+                                                                      name = condition field of a presence section, or $ver)
     D1 <layout> <hex>                 →  ok <rec> <rest length> | fail
     ES <item>|<item>|…                →  <hex>                       (ToBytesStep / service.ToBytes; item = <code>:<type>:<rec>)
     DS <step|svc> <hex>               →  ok <code>:<rec>@<consumed>|… | fail <k>   (ReadStep until the input is used up)
@@ -10,8 +12,10 @@
   val  = i<int> | x<hex> | a<int,int,…> | n (nil map) | m<key hex>~<value>&…
   value (inside maps) = N | B0 | B1 | D<int> | I<int> | L<int> | F<bits> | G<bits> | T<hex> | H<int> | X<hex>
                       | V<hex of the wire form>   (any other value)
+                      | Z                         (a nil value: only inside TxRecord.Fields, written as empty text)
 -/
 import Golib.Step.Layouts
+import Golib.Step.Alt
 import Driver.Common
 
 open Step Drv
@@ -48,13 +52,18 @@ def showValue : Value → String
   | .blob bs => s!"X{hexOf bs}"
   | v => s!"V{hexOf (Value.encV v)}"
 
-def parseEntry (s : String) : Option (Bytes × Value) :=
+def parseEntry (s : String) : Option (Bytes × Option Value) :=
   match s.splitOn "~" with
   | [k, v] => do
     let k ← ofHex k
+    if v == "Z" then pure (k, none) else
     let v ← parseValue v
-    pure (k, v)
+    pure (k, some v)
   | _ => none
+
+def entriesVal (kvs : List (Bytes × Option Value)) : Val :=
+  if kvs.all (fun p => p.2.isSome) then .m (some (kvs.filterMap (fun p => p.2.map (fun v => (p.1, v)))))
+  else .mn (some kvs)
 
 def parseVal (s : String) : Option Val :=
   let p := tailS s
@@ -63,7 +72,7 @@ def parseVal (s : String) : Option Val :=
   | some 'x' => (ofHex p).map .b
   | some 'a' => (parseList parseInt p).map .is
   | some 'n' => some (.m none)
-  | some 'm' => if p == "-" then some (.m (some [])) else ((p.splitOn "&").mapM parseEntry).map (fun kvs => .m (some kvs))
+  | some 'm' => if p == "-" then some (.m (some [])) else ((p.splitOn "&").mapM parseEntry).map entriesVal
   | _ => none
 
 def showVal : Val → String
@@ -73,6 +82,10 @@ def showVal : Val → String
   | .m none => "n"
   | .m (some kvs) =>
     if kvs.isEmpty then "m-" else "m" ++ "&".intercalate (kvs.map (fun (k, v) => s!"{hexOf k}~{showValue v}"))
+  | .mn none => "n"
+  | .mn (some kvs) =>
+    if kvs.isEmpty then "m-" else "m" ++ "&".intercalate (kvs.map (fun (k, v) =>
+      s!"{hexOf k}~{match v with | some v => showValue v | none => "Z"}"))
 
 def parseField (s : String) : Option (String × Val) :=
   match s.splitOn "=" with
@@ -86,6 +99,12 @@ def parseRec (s : String) : Option Rec :=
 def showRec (l : L) (e : Env) : String :=
   let fs := l.fieldShapes
   if fs.isEmpty then "-" else ";".intercalate (fs.map (fun (nm, s) => s!"{nm}={showVal (e.val nm s)}"))
+
+def parseChoice (s : String) : Option Choice :=
+  if s == "-" then some (fun _ => none) else
+  ((s.splitOn ",").mapM (fun (kv : String) => match kv.splitOn "=" with
+    | [k, v] => (parseNat v).map (fun n => (k, n))
+    | _ => none)).map (fun (tbl : List (String × Nat)) => fun nm => tbl.lookup nm)
 
 def allTagged : List (Nat × String × L) := stepTable ++ unregisteredSteps ++ serviceTable
 
@@ -121,6 +140,10 @@ def answer (line : String) : String :=
     match layoutByName nm, parseRec r with
     | some l, some x => hexOf (l.write x)
     | _, _ => "bad-op"
+  | ["EA", nm, chs, r] =>
+    match layoutByName nm, parseChoice chs, parseRec r with
+    | some l, some ch, some x => hexOf (l.writeAlt ch x)
+    | _, _, _ => "bad-op"
   | ["D1", nm, hex] =>
     match layoutByName nm, ofHex hex with
     | some l, some bs =>
